@@ -12,6 +12,7 @@ LEVEL = {
     'C14': 'fault_enumeration',
     'C10': 'fault_enumeration',
     'C16': 'exploration',
+    'C09': 'exploration',
 }
 
 ASSUMPTIONS = [
@@ -132,6 +133,11 @@ def camp(name, profile, params, rule, **kw):
 
 def nt_any_build(stats):
     return stats.get('builds', 0) > 0 and stats.get('executed', 0) > 0
+
+
+def nt_threads(stats):
+    sc = stats.get('schedules', {})
+    return sc.get('builds_with_threads', 0) > 0 and sc.get('switches', 0) > 2
 
 
 def nt_clean(stats):
@@ -328,6 +334,28 @@ CAMPAIGNS = {
 }
 
 
+THREAD_RULE = ('2-3 simulated threads issue independent build_file / '
+               'subbuild / query operations (distinct outputs sharing new or '
+               'stale parent directories, failing outputs, nested outputs) on '
+               'one builder; seeded random, PCT and single-preemption '
+               'schedules at every lock operation, library file-system call '
+               'and statement; compared with the sequential model, followed '
+               'by rebuilds and clean')
+CAMPAIGNS['C09'] = [
+    camp('c09-threads', 'threads', {}, THREAD_RULE, nontrivial=nt_threads,
+         post='tag_all:C09', weight=2.0),
+    camp('c09-threads-crash', 'threads', {'p_tamper': 0.7}, THREAD_RULE +
+         '; last build crashed at every raise opportunity',
+         mode='crash-sweep', nontrivial=nt_threads, chunk=4,
+         fault_step='lastbuild', post='tag_all:C09',
+         sweep_max={'quick': 8, 'thorough': None}, follow=1),
+]
+CAMPAIGNS['C08'].append(
+    camp('c08-threads', 'threads', {'p_same_key': 1.0},
+         'two or three simulated threads issue the same build_file / '
+         'subbuild key under seeded schedules: exactly one execution, the '
+         'others get RuntimeError, the winner is intact',
+         nontrivial=nt_threads, post='tag_all:C08'))
 SWAP_RULE = ('two root programs whose output paths sit above / below each '
              'other (file <-> directory swaps of outputs between builds)')
 NESTED_RULE = ('build_file functions that build nested outputs and then fail, '
@@ -455,7 +483,8 @@ def run_case(camp, seed, tier='quick'):
     elif mode in ('crash-sweep', 'oserror-sweep'):
         builds = [i for i, s in enumerate(sc['steps']) if s['op'] == 'build']
         pick = camp.get('fault_step', 'last')
-        fs = builds[-1] if pick == 'last' else builds[seed % len(builds)]
+        fs = builds[-1] if pick in ('last', 'lastbuild') else \
+            builds[seed % len(builds)]
         sc['mode'] = 'fault'
         sc['fault_step'] = fs
         sc['follow'] = camp.get('follow', 1)
